@@ -13,7 +13,7 @@ TRUSTED = [
 ASSUMPTIONS = [
     "str.format of the annotation schema: plain {field} replacement fields and {{ }} escapes only (no conversions / format specs)",
     "table cells and names carry no leading/trailing blanks, '|' or backslashes (that is the parser's business: C04/C05)",
-    "cell values containing '<' (chained substitution) are outside the property's quantifier: the model follows the code there, the oracle is silent",
+    "cell values containing '<column>' of another column (chained substitution) are outside the property's quantifier: the model follows the code there, the oracle is silent",
 ]
 RULE = ("seeded random outlines: placeholders (known, unknown, repeated, adjacent, column names with blanks/dots/non-ASCII) in the outline name, "
         "step names, doc-strings, step-table headings and cells, tags and background steps; 0-3 examples blocks with permuted column orders, "
@@ -29,7 +29,9 @@ LEVEL_NOTE = "Trusted: Coq kernel, generated character tables, the Gherkin parse
 EXHAUSTIVE = False
 
 COLS = ["name", "n", "user name", "a.b", "Ü"]
-VALUES = ["", "Alice", "two words", "Ünï cödé", "name", "n", "42", "x>y", "a-b_c", "it's", "Q&A", "semi;colon"]
+VALUES = ["", "Alice", "two words", "Ünï cödé", "name", "n", "42", "x>y", "a-b_c", "it's", "Q&A", "semi;colon", "<unset>", "x<y>z", "1 < 2 > 0"]
+# values with angle brackets around text that is no column or parameter name: nothing in them can be substituted again
+SAFE_BRACKETED = ["<unset>", "x<y>z", "1 < 2 > 0"]
 CHAINED = ["<n>", "<name>", "a<b"]
 SCHEMAS = [None, "{name} -- @{row.id} {examples.name}", "{name} <{row.index}/{examples.index}>", "{{x}} {name} {row.id}",
            "{examples.name}:{name}", "{nope} {name}", "{name"]
@@ -229,7 +231,7 @@ def ex_tags_of(filled, line):
 
 def chained(case, tables):
     vals = [v for t in tables if t for r in t["rows"] for v in r[0]] + [h for t in tables if t for h in t["head"]]
-    return any("<" in v for v in vals)
+    return any("<" in v and v not in SAFE_BRACKETED for v in vals)
 
 
 def oracle(case, obs):
